@@ -1,14 +1,30 @@
 """C07 — two-key guard loop: a request passes only with the approvals its gate logic requires.
 
-Engine D: every cell of 6 gate logics x 11 x 11 agent verdicts (the 7 of the property — EXECUTE, PERMIT,
-BLOCK, FAILURE, DEFER, UNKNOWN, raising agent — plus 4 more *unknown* spellings) x cache on/off x 8 prompts
-is executed on the real CoherentFeedForwardLoop.run() with programmable stub agents assigned onto the
-loop object; each cell is run twice (second call with the opposite verdicts: a cache hit must repeat the
-original reply, a cache miss is judged on the new verdicts).
+Engine D: every cell of 6 gate logics x 20 x 20 agent answers (the 7 of the property — EXECUTE, PERMIT,
+BLOCK, FAILURE, DEFER, UNKNOWN, raising agent — plus 6 more *unknown* spellings, 4 more exception kinds and
+3 answers that are no verdict object) x option tuples x prompts is executed on the real
+CoherentFeedForwardLoop.run() with programmable stub agents assigned onto the loop object; each cell makes
+3 calls (2nd with the opposite verdicts: a cache hit must repeat the original reply, a cache miss is judged
+on the new verdicts; 3rd after the TTL has passed).
 Engine A: BFS over repeat/alternate/expire/clear histories on two prompts that differ only by a trailing
 space (cache consistency), virtual clock for the TTL.
 Binding: the same oracle is run on the built-in BioAgents (proxied, verdicts witnessed) and every witnessed
 verdict pair is re-run with stubs and must give the same reply.
+
+Gap sweep (second round) — dimensions that used to be held fixed are crossed with the core table:
+* options: cache on/off x cache TTL {300, 0, 1e12} x circuit breaker {off, (5, 60 s), (1, 0 s)} x
+  {defaults, silent=False + on_block/on_permit callbacks + timeout_seconds=0}; every cell makes a 3rd call
+  after the virtual clock has crossed the TTL.
+* agent answers: exceptions of other classes / with an empty message / a BaseException, non-ActionProtein
+  returns (None, bare str, dict), more unknown spellings ("PERMIT ", True); 9 payload/confidence/metadata
+  "shapes" for executor x assessor (the token copies them; only action_type may drive the gate).
+* request identity: ~30 near-miss variants (case, whitespace, Unicode normal forms, invisible characters,
+  ascii folding, digits, punctuation, word order, truncation at both ends) of 4 base prompts, both orders,
+  on one caching loop: the variant must be evaluated on its own verdicts, never served from the neighbour.
+* history: each base cell after a prefix of passes / blocks / failures / crashes / unknowns (below and above
+  the breaker threshold) + clock advance or clear_cache()/reset_circuit_breaker(), on a fresh or the same
+  prompt. A reply given without consulting any agent is classified from the call log only: breaker
+  enabled + blocked + no token + not flagged cached = refusal (allowed), else it must equal the original.
 
 Oracle (one-directional, from the statement): not blocked => reference table satisfied; token => assessor
 verdict PERMIT, hash is a sha256 prefix (>=16 hex) of exactly this prompt, issuer == assessor name;
@@ -17,16 +33,24 @@ cached reply == original reply (blocked, success, action, token hash+issuer) of 
 from __future__ import annotations
 
 import hashlib
+import unicodedata
 
 from mc import common, explore, vclock
 
-from checks import _guardloop as G
+from checks import _guardloop as G  # Recorder, quiet, canon_selfcheck; installs the virtual clock into loops.py
+
+from operon_ai.core.types import ActionProtein
+from operon_ai.state.metabolism import ATP_Store
+from operon_ai.topology.loops import CoherentFeedForwardLoop, GateLogic
 
 LOGICS = ["AND", "OR", "MAJORITY", "UNANIMOUS", "EXECUTOR_PRIORITY", "ASSESSOR_PRIORITY"]
 BASE_VERDICTS = ["EXECUTE", "PERMIT", "BLOCK", "FAILURE", "DEFER", "UNKNOWN", "raise"]
 # further "unknown verdict" spellings: none of them is an approval
-EXTRA_VERDICTS = ["permit", "", "APPROVE", None]
-VERDICTS = BASE_VERDICTS + EXTRA_VERDICTS
+EXTRA_VERDICTS = ["permit", "", "APPROVE", None, "PERMIT ", True]
+# other exception classes / empty messages / a BaseException; answers that are not an ActionProtein at all
+ODD_ANSWERS = ["raise:ValueError()", "raise:StopIteration", "raise:KeyError('')", "raise:BaseException",
+               "ret:None", "ret:str", "ret:dict"]
+VERDICTS = BASE_VERDICTS + EXTRA_VERDICTS + ODD_ANSWERS
 
 PROMPTS = [
     "Deploy to production",
@@ -42,15 +66,133 @@ SURROGATE_PROMPT = "\ud800 lone surrogate"  # cannot be utf-8 encoded: run() may
 HIST_PROMPTS = ["transfer funds to account 7", "transfer funds to account 7 "]
 TTL = 300.0
 
+# ---- option dimension: cfg = (enable_cache, cache_ttl_seconds, failure_threshold (0 = breaker off),
+#                               recovery_timeout_seconds, misc) ; misc 1 = silent=False + callbacks + timeout_seconds=0
+TTLS = [300.0, 0.0, 1e12]
+BREAKERS = [(0, 60.0), (5, 60.0), (1, 0.0)]
+BASE_CFGS = [(True, TTL, 0, 60.0, 0), (False, TTL, 0, 60.0, 0)]
+
+
+def all_cfgs():
+    out = []
+    for thr, rec in BREAKERS:
+        for misc in (0, 1):
+            out.append((False, TTL, thr, rec, misc))
+            out += [(True, ttl, thr, rec, misc) for ttl in TTLS]
+    return out
+
+
+EXEC_NAME = "stub-executor-Z"
+ASSR_NAME = "stub-assessor-Y"
+
+
+class _Boom(BaseException):
+    """Not an Exception: nothing in the library may turn it into a pass."""
+
+
+class BadStr:
+    def __str__(self):
+        raise ValueError("payload cannot be rendered")
+
+    def __repr__(self):
+        return "<BadStr>"
+
+
+# (payload, confidence, extra ActionProtein fields); index 0 = the plain shape used everywhere else
+def shape(i, name, v):
+    if i == 0:
+        return f"{name} says {v!r}", 0.75, {}
+    return [
+        None,
+        (None, None, {}),
+        ("", 0, {}),
+        ("PERMIT", 1.0, {}),  # payload spells an approval, full confidence
+        ("BLOCK", 0.0, {}),
+        ({"approved": True, "k": [1]}, "high", {}),
+        (BadStr(), float("nan"), {}),
+        ("x" * 10_000, -1.0, {}),
+        (0, True, {"source_agent": "admin", "metadata": {"approved": True, "override": "PERMIT"}}),
+    ][i]
+
+
+N_SHAPES = 9
+
+
+def is_raise(v):
+    return isinstance(v, str) and v.startswith("raise")
+
+
+class Stub:
+    """Programmable executor / assessor assigned onto the real loop object."""
+
+    def __init__(self, name):
+        self.name = name
+        self.verdict = "UNSET"
+        self.shape = 0
+        self.calls = 0
+        self.log = []
+
+    def express(self, signal):
+        self.calls += 1
+        v = self.verdict
+        self.log.append(v)
+        if is_raise(v):
+            if v == "raise":
+                raise RuntimeError(f"{self.name} crashed")
+            if v == "raise:ValueError()":
+                raise ValueError()
+            if v == "raise:StopIteration":
+                raise StopIteration
+            if v == "raise:KeyError('')":
+                raise KeyError("")
+            if v == "raise:BaseException":
+                raise _Boom()
+            raise AssertionError(v)
+        if v == "ret:None":
+            return None
+        if v == "ret:str":
+            return "PERMIT"
+        if v == "ret:dict":
+            return {"action_type": "PERMIT", "payload": "ok", "confidence": 1.0}
+        payload, conf, extra = shape(self.shape, self.name, v)
+        return ActionProtein(v, payload, conf, **extra)
+
+
+def make_loop(logic, cfg, real=False, budget=100_000):
+    cache, ttl, thr, rec, misc = cfg
+    store = ATP_Store(budget=budget, silent=True)
+    events = []
+    kw = {"silent": True}
+    if misc:
+        kw = {"silent": False, "timeout_seconds": 0,
+              "on_block": lambda r: events.append("block"), "on_permit": lambda r: events.append("permit")}
+    loop = CoherentFeedForwardLoop(
+        budget=store, gate_logic=GateLogic[logic], enable_circuit_breaker=thr > 0, failure_threshold=thr or 5,
+        recovery_timeout_seconds=rec, enable_cache=cache, cache_ttl_seconds=ttl, **kw)
+    if real:
+        loop.executor = G.Recorder(loop.executor)
+        loop.assessor = G.Recorder(loop.assessor)
+    else:
+        loop.executor = Stub(EXEC_NAME)
+        loop.assessor = Stub(ASSR_NAME)
+    return loop, events
+
+
+def snap(r):
+    """The verdict-carrying fields of a LoopResult."""
+    tok = r.approval_token
+    return (bool(r.blocked), bool(r.success), r.action, None if tok is None else (tok.request_hash, tok.issuer))
+
 
 # ---- reference, written from the property statement -------------------------------------------
 
 def allowed(logic, ex, as_):
-    """May the request come back not-blocked?"""
-    if ex == "raise" or as_ == "raise":
+    """May the request come back not-blocked?  Anything that is not literally one of the named verdicts
+    (other spellings, non-strings, an answer that is no verdict object, no answer at all) is 'unknown'."""
+    if is_raise(ex) or is_raise(as_):
         return False
-    ep = ex in ("EXECUTE", "PERMIT")
-    ap = as_ == "PERMIT"
+    ep = isinstance(ex, str) and ex in ("EXECUTE", "PERMIT")
+    ap = isinstance(as_, str) and as_ == "PERMIT"
     if logic in ("AND", "UNANIMOUS", "MAJORITY"):
         return ep and ap
     if logic == "OR":
@@ -70,12 +212,12 @@ def judge_reply(logic, ex, as_, prompt, s, assessor_name):
     blocked, success, action, tok = s
     v = []
     if not blocked and not allowed(logic, ex, as_):
-        cls = "agent-exception" if "raise" in (ex, as_) else logic
+        cls = "agent-exception" if is_raise(ex) or is_raise(as_) else logic
         v.append((f"unapproved-pass:{cls}",
                   f"gate {logic}, executor verdict {ex!r}, assessor verdict {as_!r}: expected blocked, got "
                   f"blocked={blocked} success={success} action={action!r}"))
     if tok is not None:
-        if as_ != "PERMIT":
+        if not (isinstance(as_, str) and as_ == "PERMIT"):
             v.append(("token-without-assessor-permit",
                       f"gate {logic}, executor {ex!r}, assessor {as_!r}: approval token {tok} attached although the "
                       f"assessor did not permit"))
@@ -93,12 +235,18 @@ def judge_reply(logic, ex, as_, prompt, s, assessor_name):
 
 
 class Session:
-    """One real loop + bookkeeping of the original (agent-consulted) reply per prompt."""
+    """One real loop + bookkeeping of the original (agent-consulted) reply per prompt.  What kind of step a
+    call was (evaluated / cache hit / refusal) is derived from the agents' call log and the public reply only."""
 
-    def __init__(self, logic, cache, real=False, budget=100_000):
+    def __init__(self, logic, cfg, real=False, budget=100_000, shapes=(0, 0)):
         self.logic = logic
+        self.cfg = tuple(cfg)
         self.real = real
-        self.loop = G.make_loop(logic, breaker=False, cache=cache, cache_ttl=TTL, real=real, budget=budget)
+        self.loop, self.events = make_loop(logic, self.cfg, real=real, budget=budget)
+        if not real:
+            self.loop.executor.shape, self.loop.assessor.shape = shapes
+        self.noisy = real or bool(self.cfg[4])
+        self.breaker = self.cfg[2] > 0
         self.orig = {}
         self.execs = 0
         self.last = None
@@ -111,24 +259,29 @@ class Session:
         ne, na, c0 = len(E.log), len(A.log), E.calls + A.calls
         self.execs += 1
         try:
-            if self.real:
+            if self.noisy:
                 with G.quiet():
                     r = L.run(prompt)
             else:
                 r = L.run(prompt)
-        except Exception as e:  # noqa: BLE001 - run() raising is not a pass; recorded as an outcome
+        except (Exception, _Boom) as e:  # run() raising is not a pass; recorded as an outcome
             self.last = ("run-raises", type(e).__name__)
             return []
         consulted = E.calls + A.calls - c0
         wex = E.log[ne] if len(E.log) > ne else None
         was = A.log[na] if len(A.log) > na else None
-        s = G.snap(r)
+        s = snap(r)
         try:
             okey = ("p", prompt)
             hash(okey)
         except TypeError:
             okey = ("r", repr(prompt))
-        if bool(getattr(r, "cached", False)) or consulted == 0:
+        flagged = bool(getattr(r, "cached", False))
+        if consulted == 0 and not flagged and self.breaker and s[0] and s[3] is None:
+            # nobody was asked and the request was refused: extra blocking is allowed (circuit breaker, C08)
+            self.last = ("refused", s)
+            return []
+        if flagged or consulted == 0:
             self.last = ("cache-hit", s)
             o = self.orig.get(okey)
             if o is None:
@@ -144,60 +297,255 @@ class Session:
         return judge_reply(self.logic, wex, was, prompt, s, A.name)
 
 
+def opposite(logic, ex, as_):
+    return ("BLOCK", "BLOCK") if allowed(logic, ex, as_) else ("EXECUTE", "PERMIT")
+
+
 # ---- engine D: the verdict table ---------------------------------------------------------------
 
-def run_cell(logic, cache, prompt, ex, as_):
-    """-> (violations, outcomes, executions, trivial?, strong_reading_hit)"""
-    vclock.use(vclock.VClock())
-    ses = Session(logic, cache)
+def run_cell(logic, cfg, prompt, ex, as_, shapes=(0, 0)):
+    """-> (violations, [outcome of call 1, 2, 3], executions).  Call 2 = same prompt, opposite verdicts;
+    call 3 = the same again after the clock has crossed the cache TTL."""
+    clock = vclock.VClock()
+    vclock.use(clock)
+    ses = Session(logic, cfg, shapes=shapes)
     v = list(ses.call(prompt, ex, as_))
-    first = ses.last
-    # second call on the same prompt with the opposite verdicts
-    ex2, as2 = ("BLOCK", "BLOCK") if allowed(logic, ex, as_) else ("EXECUTE", "PERMIT")
+    lasts = [ses.last]
+    ex2, as2 = opposite(logic, ex, as_)
     v += ses.call(prompt, ex2, as2)
-    second = ses.last
-    return v, first, second, ses.execs
+    lasts.append(ses.last)
+    clock.advance(min(cfg[1], 1e6) + 1)
+    v += ses.call(prompt, ex2, as2)
+    lasts.append(ses.last)
+    return v, lasts, ses.execs
 
 
-def _outcome_key(logic, cache, last):
+def _outcome_key(logic, cfg, last):
     if last[0] == "evaluated":
         s = last[3]
         return (logic, "evaluated", s[0], s[1], s[2], s[3] is not None)
-    if last[0] == "cache-hit":
+    if last[0] in ("cache-hit", "refused"):
         s = last[1]
-        return (logic, "cache-hit", s[0], s[1], s[2], s[3] is not None)
-    return (logic, cache) + tuple(last)
+        return (logic, last[0], s[0], s[1], s[2], s[3] is not None)
+    return (logic, bool(cfg[0])) + tuple(last)
+
+
+def _new_out():
+    return {"viol": [], "outcomes": set(), "execs": 0, "cells": 0, "nontrivial": 0, "passes": 0, "hits": 0,
+            "strong": 0, "hashes": set(), "raises": 0, "refused": 0, "expired_reevaluated": 0}
+
+
+def _tally(out, logic, cfg, pi, ex, as_, lasts):
+    first = lasts[0]
+    for last in lasts:
+        out["outcomes"].add(_outcome_key(logic, cfg, last))
+        if last[0] == "run-raises":
+            out["raises"] += 1
+        elif last[0] == "refused":
+            out["refused"] += 1
+    if first[0] == "evaluated":
+        s = first[3]
+        if not (s[0] and s[2] == "ERROR" and not (is_raise(ex) or is_raise(as_))):
+            out["nontrivial"] += 1  # a dedicated table branch, the exception path, or a pass
+        if not s[0]:
+            out["passes"] += 1
+            if ex not in ("EXECUTE", "PERMIT", "BLOCK", "FAILURE") or as_ not in ("PERMIT", "BLOCK", "FAILURE"):
+                out["strong"] += 1
+        if s[3] is not None and pi is not None:
+            out["hashes"].add((pi, s[3][0]))
+    if len(lasts) > 1 and lasts[1][0] == "cache-hit":
+        out["hits"] += 1
+        if len(lasts) > 2 and lasts[2][0] == "evaluated":
+            out["expired_reevaluated"] += 1
 
 
 def d_worker(chunk):
-    out = {"viol": [], "outcomes": set(), "execs": 0, "cells": 0, "nontrivial": 0, "passes": 0, "hits": 0,
-           "strong": 0, "hashes": set(), "raises": 0}
-    for logic, cache, pi in chunk:
+    out = _new_out()
+    for logic, cfg, pi in chunk:
         prompt = SURROGATE_PROMPT if pi == -1 else PROMPTS[pi]
         for ex in VERDICTS:
             for as_ in VERDICTS:
-                v, first, second, n = run_cell(logic, cache, prompt, ex, as_)
+                v, lasts, n = run_cell(logic, cfg, prompt, ex, as_)
                 out["execs"] += n
                 out["cells"] += 1
-                for last in (first, second):
-                    out["outcomes"].add(_outcome_key(logic, cache, last))
-                if first[0] == "evaluated":
-                    s = first[3]
-                    if not (s[0] and s[2] == "ERROR" and "raise" not in (ex, as_)):
-                        out["nontrivial"] += 1  # a dedicated table branch, the exception path, or a pass
-                    if not s[0]:
+                _tally(out, logic, cfg, pi, ex, as_, lasts)
+                for key, what in v:
+                    out["viol"].append((key, what, {"kind": "cell", "logic": logic, "cfg": cfg, "pi": pi,
+                                                    "ex": ex, "as": as_}))
+    return out
+
+
+# ---- payload / confidence / metadata shapes x base table ----------------------------------------
+
+def shape_items():
+    items = [(lg, BASE_CFGS[1], se, sa) for lg in LOGICS for se in range(N_SHAPES) for sa in range(N_SHAPES)]
+    items += [(lg, BASE_CFGS[0], sh, sh) for lg in LOGICS for sh in range(1, N_SHAPES)]
+    return items
+
+
+def shape_worker(chunk):
+    out = _new_out()
+    for logic, cfg, se, sa in chunk:
+        for ex in BASE_VERDICTS:
+            for as_ in BASE_VERDICTS:
+                v, lasts, n = run_cell(logic, cfg, PROMPTS[0], ex, as_, (se, sa))
+                out["execs"] += n
+                out["cells"] += 1
+                _tally(out, logic, cfg, None, ex, as_, lasts)
+                for key, what in v:
+                    out["viol"].append((key, f"[executor answer shape #{se}, assessor answer shape #{sa}] {what}",
+                                        {"kind": "shape", "logic": logic, "cfg": cfg, "shapes": (se, sa),
+                                         "ex": ex, "as": as_}))
+    return out
+
+
+# ---- request identity: near-miss variants of a prompt on one caching loop ------------------------
+
+IDENT_BASES = [
+    "Deploy build 42 to production, then notify ops.",
+    "Überweise 10 € an 張三 und Café ﬁn ＡÅ ①",  # decomposed + composed + compat chars
+    "transfer 100 to account 7",
+    "Q" * 4_000 + " approve wire 9 " + "Z" * 4_000,
+]
+
+
+def _flip(p, i):
+    return p[:i] + chr(ord(p[i]) ^ 1) + p[i + 1:]
+
+
+def variants(p):
+    """Strings that a 'helpful' normalisation would identify with p, but which are different requests."""
+    words = p.split(" ")
+    sw = list(words)
+    if len(sw) > 2:
+        sw[0], sw[-1] = sw[-1], sw[0]
+    cand = {
+        "lower": p.lower(), "upper": p.upper(), "swapcase": p.swapcase(), "casefold": p.casefold(), "title": p.title(),
+        "lead-space": " " + p, "trail-space": p + " ", "trail-newline": p + "\n", "trail-crlf": p + "\r\n",
+        "double-space": p.replace(" ", "  "), "tab-for-space": p.replace(" ", "\t"),
+        "nbsp-for-space": p.replace(" ", "\u00a0"), "no-space": p.replace(" ", ""),
+        "bom": "\ufeff" + p, "zero-width": p + "\u200b", "trail-nul": p + "\x00",
+        "NFC": unicodedata.normalize("NFC", p), "NFD": unicodedata.normalize("NFD", p),
+        "NFKC": unicodedata.normalize("NFKC", p), "NFKD": unicodedata.normalize("NFKD", p),
+        "ascii-ignore": p.encode("ascii", "ignore").decode(), "ascii-replace": p.encode("ascii", "replace").decode(),
+        "digits+1": "".join(str((int(c) + 1) % 10) if c in "0123456789" else c for c in p),
+        "digit-appended": "".join(c + "0" if c in "0123456789" else c for c in p),
+        "punct-appended": p + ".", "punct-removed": "".join(c for c in p if c not in ".,;:!?"),
+        "word-swap": " ".join(sw), "words-sorted": " ".join(sorted(words)),
+        "first-char": _flip(p, 0), "middle-char": _flip(p, len(p) // 2), "last-char": _flip(p, len(p) - 1),
+        "char-at-8": _flip(p, min(8, len(p) - 1)), "char-at-64": _flip(p, min(64, len(p) - 1)),
+        "doubled": p + p, "head-half": p[: len(p) // 2], "tail-half": p[len(p) // 2:],
+    }
+    seen, out = {p}, []
+    for k in sorted(cand):
+        if cand[k] not in seen:
+            seen.add(cand[k])
+            out.append((k, cand[k]))
+    return out
+
+
+IDENT_CFGS = [(True, ttl, thr, rec, misc) for ttl in (TTL, 1e12) for thr, rec in BREAKERS[:2] for misc in (0, 1)]
+
+
+def ident_items():
+    return [(lg, cfg, bi) for lg in LOGICS for cfg in IDENT_CFGS for bi in range(len(IDENT_BASES))]
+
+
+def run_ident(logic, cfg, first, second):
+    """first is answered with approving verdicts; then its neighbour and first again with blocking ones."""
+    vclock.use(vclock.VClock())
+    ses = Session(logic, cfg)
+    v, lasts = [], []
+    for p, ex, as_ in ((first, "EXECUTE", "PERMIT"), (second, "BLOCK", "BLOCK"), (first, "BLOCK", "BLOCK"),
+                       (second, "EXECUTE", "PERMIT")):
+        v += ses.call(p, ex, as_)
+        lasts.append(ses.last)
+    return v, lasts, ses.execs
+
+
+def ident_worker(chunk):
+    out = _new_out()
+    out["pairs"] = 0
+    for logic, cfg, bi in chunk:
+        base = IDENT_BASES[bi]
+        for name, var in variants(base):
+            for order in (0, 1):
+                a, b = (base, var) if order == 0 else (var, base)
+                v, lasts, n = run_ident(logic, cfg, a, b)
+                out["execs"] += n
+                out["pairs"] += 1
+                for last in lasts:
+                    out["outcomes"].add(("ident",) + _outcome_key(logic, cfg, last))
+                if lasts[1][0] == "evaluated":
+                    out["nontrivial"] += 1
+                for key, what in v:
+                    out["viol"].append((key, f"[prompts differ only by '{name}'] {what}",
+                                        {"kind": "ident", "logic": logic, "cfg": cfg, "base": bi, "variant": name,
+                                         "order": order}))
+    return out
+
+
+# ---- history: a base cell after a prefix of other requests on the same loop -----------------------
+
+HIST_KINDS = {"pass": ("EXECUTE", "PERMIT"), "block": ("EXECUTE", "BLOCK"), "fail": ("FAILURE", "PERMIT"),
+              "crash": ("raise", "PERMIT"), "unknown": ("DEFER", "UNKNOWN")}
+HIST_THR = 3
+HIST_CFGS = [(True, TTL, 0, 60.0, 0), (False, TTL, HIST_THR, 60.0, 0), (True, TTL, HIST_THR, 60.0, 1)]
+HIST_TAILS = ["none", "advance", "mutate"]
+HIST_TARGETS = ["fresh", "same"]
+
+
+def hist_prefixes(quick):
+    ks = (1, HIST_THR + 2) if quick else (1, HIST_THR - 1, HIST_THR, HIST_THR + 2)
+    return [(kind, k) for kind in sorted(HIST_KINDS) for k in ks] + [("mixed", 2 * HIST_THR)]
+
+
+def hist_items(quick):
+    cfgs = HIST_CFGS if quick else HIST_CFGS + [(False, TTL, 0, 60.0, 1), (True, 0.0, 1, 0.0, 0)]
+    return [(lg, cfg, pre, tail, tgt) for lg in LOGICS for cfg in cfgs for pre in hist_prefixes(quick)
+            for tail in HIST_TAILS for tgt in HIST_TARGETS]
+
+
+def run_hist(logic, cfg, pre, tail, tgt, ex, as_):
+    clock = vclock.VClock()
+    vclock.use(clock)
+    ses = Session(logic, cfg)
+    kind, k = pre
+    v, p = [], None
+    for i in range(k):
+        pex, pas = HIST_KINDS[("pass", "fail")[i % 2] if kind == "mixed" else kind]
+        p = f"earlier request #{i}"
+        v += ses.call(p, pex, pas)
+    if tail == "advance":
+        clock.advance(61.0)
+    elif tail == "mutate":
+        ses.loop.clear_cache()
+        ses.loop.reset_circuit_breaker()
+    v += ses.call("the judged request" if tgt == "fresh" else p, ex, as_)
+    return v, ses.last, ses.execs
+
+
+def hist_worker(chunk):
+    out = _new_out()
+    for logic, cfg, pre, tail, tgt in chunk:
+        for ex in BASE_VERDICTS:
+            for as_ in BASE_VERDICTS:
+                v, last, n = run_hist(logic, cfg, pre, tail, tgt, ex, as_)
+                out["execs"] += n
+                out["cells"] += 1
+                out["outcomes"].add(("hist",) + _outcome_key(logic, cfg, last))
+                if last[0] == "evaluated":
+                    out["nontrivial"] += 1
+                    if not last[3][0]:
                         out["passes"] += 1
-                        if ex not in ("EXECUTE", "PERMIT", "BLOCK", "FAILURE") or as_ not in ("PERMIT", "BLOCK", "FAILURE"):
-                            out["strong"] += 1
-                    if s[3] is not None:
-                        out["hashes"].add((pi, s[3][0]))
-                elif first[0] == "run-raises":
-                    out["raises"] += 1
-                if second[0] == "cache-hit":
+                elif last[0] == "refused":
+                    out["refused"] += 1
+                elif last[0] == "cache-hit":
                     out["hits"] += 1
                 for key, what in v:
-                    out["viol"].append((key, what, {"kind": "cell", "logic": logic, "cache": cache, "pi": pi,
-                                                    "ex": ex, "as": as_}))
+                    out["viol"].append((key, f"[after {pre[1]} x '{pre[0]}' requests, then {tail}, {tgt} prompt] {what}",
+                                        {"kind": "hist", "logic": logic, "cfg": cfg, "pre": pre, "tail": tail,
+                                         "tgt": tgt, "ex": ex, "as": as_}))
     return out
 
 
@@ -215,7 +563,7 @@ class HistModel:
         st = HState()
         st.clock = vclock.VClock()
         vclock.use(st.clock)
-        st.ses = Session(root[0], True)
+        st.ses = Session(root[0], BASE_CFGS[0])
         return st
 
     def ops(self, st):
@@ -244,14 +592,14 @@ class HistModel:
         ents = []
         for k, (res, ts) in cache.items():
             age = (now - ts).total_seconds()
-            ents.append((k, G.snap(res), age if age <= TTL else "expired"))
+            ents.append((k, snap(res), age if age <= TTL else "expired"))
         ents.sort(key=repr)
         return (tuple(sorted(st.ses.orig.items(), key=repr)), tuple(ents))
 
     def observe(self, st):
         last = st.ses.last
         if last and last[0] in ("evaluated", "cache-hit"):
-            return repr(_outcome_key(st.ses.logic, True, last))
+            return repr(_outcome_key(st.ses.logic, BASE_CFGS[0], last))
         return repr(last)
 
 
@@ -268,21 +616,24 @@ REAL_PROMPTS = [
     12345,  # not a string: the built-in agent raises inside express()
     "\ud800",
 ]
+# the built-in agents spend 10 ATP per answer: every way of running dry before / between / after the two answers
+REAL_BUDGETS = [1000, 35, 30, 25, 20, 15, 10, 5, 0]
 
 
 def real_scenarios():
-    return [[lg, cache, budget] for lg in LOGICS for cache in (True, False) for budget in (1000, 30, 0)]
+    return [[lg, cache, budget] for lg in LOGICS for cache in (True, False) for budget in REAL_BUDGETS]
 
 
 def run_real(sc):
     """-> (violations [(key, what)], witnessed [(ex, as, snap)], executions, outcomes)"""
     logic, cache, budget = sc
     vclock.use(vclock.VClock())
-    ses = Session(logic, cache, real=True, budget=budget)
+    cfg = BASE_CFGS[0] if cache else BASE_CFGS[1]
+    ses = Session(logic, cfg, real=True, budget=budget)
     v, wit, outs = [], [], set()
     for p in REAL_PROMPTS:
         v += [(k, f"built-in agents, budget {budget}, cache {cache}: {w}") for k, w in ses.call(p)]
-        outs.add(_outcome_key(logic, cache, ses.last))
+        outs.add(_outcome_key(logic, cfg, ses.last))
         if ses.last[0] == "evaluated":
             wit.append((ses.last[1], ses.last[2], ses.last[3], p))
     return v, wit, ses.execs, outs
@@ -293,7 +644,7 @@ def stub_agrees(logic, wex, was, s, prompt):
     if wex is None or was is None and wex != "raise":
         return True, None
     vclock.use(vclock.VClock())
-    ses = Session(logic, False)
+    ses = Session(logic, BASE_CFGS[1])
     ses.call(prompt, wex, was if was is not None else "PERMIT")
     if ses.last[0] != "evaluated":
         return False, ses.last
@@ -312,20 +663,32 @@ def _selfcheck(ctx, model, depth):
         ctx.note(f"canonicalisation self-check: {len(mism)} merged pairs differ (tree already violates the property)")
 
 
+def _family(ctx, worker, items, tot, viol):
+    """Run one D family over forked workers; merge counters; -> per-family dict."""
+    fam = {}
+    for out in common.pmap(worker, common.chunked(common.rotate(items, ctx.seed), common.NPROC * 2)):
+        viol += out.pop("viol")
+        ctx.outcomes |= out.pop("outcomes")
+        fam.setdefault("hashes", set()).update(out.pop("hashes"))
+        for k, n in out.items():
+            fam[k] = fam.get(k, 0) + n
+            tot[k] = tot.get(k, 0) + n
+    return fam
+
+
 def run(ctx):
     quick = ctx.tier == "quick"
     pis = list(range(len(PROMPTS))) + ([] if quick else [-1])
-    items = [(lg, cache, pi) for lg in LOGICS for cache in (True, False) for pi in pis]
-    chunks = common.chunked(common.rotate(items, ctx.seed), common.NPROC * 2)
+    cfgs = all_cfgs()
+    if quick:  # every option combination on the plain prompt, the two base configurations on every prompt
+        items = [(lg, cfg, 0) for lg in LOGICS for cfg in cfgs]
+        items += [(lg, cfg, pi) for lg in LOGICS for cfg in BASE_CFGS for pi in pis[1:]]
+    else:
+        items = [(lg, cfg, pi) for lg in LOGICS for cfg in cfgs for pi in pis]
     viol = []
-    tot = {"execs": 0, "cells": 0, "nontrivial": 0, "passes": 0, "hits": 0, "strong": 0, "raises": 0}
-    hashes = set()
-    for out in common.pmap(d_worker, chunks):
-        viol += out["viol"]
-        ctx.outcomes |= out["outcomes"]
-        hashes |= out["hashes"]
-        for k in tot:
-            tot[k] += out[k]
+    tot = {}
+    fam_d = _family(ctx, d_worker, items, tot, viol)
+    hashes = fam_d["hashes"]
     # token hashes: one per prompt, different prompts -> different hashes
     by_prompt, by_hash = {}, {}
     for pi, h in sorted(hashes):
@@ -338,6 +701,9 @@ def run(ctx):
     for h, ps in sorted(by_hash.items()):
         if len(ps) > 1:
             viol.append(("token-hash-not-bound-to-request", f"prompts {sorted(ps)} share request hash {h}", {"kind": "hashfn"}))
+    fam_s = _family(ctx, shape_worker, shape_items(), tot, viol)
+    fam_i = _family(ctx, ident_worker, ident_items(), tot, viol)
+    fam_h = _family(ctx, hist_worker, hist_items(quick), tot, viol)
     viol.sort(key=lambda x: (x[0], repr(x[2])))
     for k, w, c in viol:
         ctx.report(k, w, c)
@@ -371,7 +737,7 @@ def run(ctx):
     if odd:
         ctx.note(f"built-in agents produced verdicts outside the enumerated alphabet: {odd}")
 
-    ctx.stats.update({f"D.{k}": v for k, v in tot.items()})
+    ctx.stats.update({f"D.{k}": v for k, v in sorted(tot.items())})
     ctx.stats["real.executions"] = real_exec
     ctx.stats["real.witnessed_verdict_pairs"] = len(witnessed)
     ctx.note(f"stronger reading not asserted: {tot['strong']} passing cells have one agent giving a verdict that is "
@@ -380,38 +746,59 @@ def run(ctx):
     ctx.note("a token is only ever observed on non-blocked replies (DESIGN's stronger reading) iff no "
              "'evaluated' outcome has blocked=True with token=True: "
              + str(not any(len(o) == 6 and o[1] == "evaluated" and o[2] and o[5] for o in ctx.outcomes if o[0] != "real")))
+    ctx.note("not asserted (not in the statement): that an expired cache entry is re-evaluated, that a closed breaker "
+             "never refuses, what on_block/on_permit receive, re-assignment of loop.gate_logic after replies were cached")
     if tot["raises"]:
-        ctx.note(f"{tot['raises']} cells: run() itself raised (prompt not utf-8 encodable); counted as not passed")
-    ctx.sample({"kind": "cell", "logic": "OR", "cache": True, "prompt": PROMPTS[2], "ex": "FAILURE", "as": "PERMIT"})
+        ctx.note(f"{tot['raises']} calls: run() itself raised (prompt not utf-8 encodable, agent answer that is no "
+                 f"verdict object, payload that cannot be rendered, BaseException from an agent); counted as not passed")
+    ctx.sample({"kind": "cell", "logic": "OR", "cfg": cfgs[-1], "prompt": PROMPTS[2], "ex": "FAILURE", "as": "PERMIT"})
     ctx.sample({"kind": "real", "scenario": real_scenarios()[0], "prompts": REAL_PROMPTS[:6]})
+    n_d = tot["cells"] + fam_i["pairs"]
     ctx.coverage.update(
         states=res["states"],
         transitions=res["transitions"],
         traces_validated_against_impl=tot["execs"] + res["transitions"] + real_exec,
-        evaluations=tot["cells"] + res["transitions"],
+        evaluations=n_d + res["transitions"],
         distinct_nontrivial=tot["nontrivial"],
-        rule="engine D: every (gate logic, cache on/off, prompt, executor verdict, assessor verdict) cell, each cell = "
-             "2 run() calls on a fresh real loop; distinct = distinct cell; non-trivial = first reply is NOT the "
-             "fall-through blocked ERROR (i.e. a dedicated table branch, the agent-exception path, or a pass). "
-             "engine A: BFS over run/advance/clear histories on 2 prompts, state = (original replies, cache entries+age)",
+        rule="engine D, four exhaustive families on fresh real loops: (table) every (gate logic, option tuple, prompt, "
+             "executor answer, assessor answer) cell = 3 run() calls (answer; opposite verdicts; again after the TTL); "
+             "(shapes) base table x executor/assessor payload-confidence shapes; (identity) every near-miss variant of "
+             "every base prompt, both orders, 4 calls; (history) base table after every prefix x tail x target. "
+             "distinct = distinct cell / pair; non-trivial = first (table, shapes) or judged (history) reply is NOT the "
+             "fall-through blocked ERROR resp. was really evaluated, for identity: the neighbour was evaluated on its "
+             "own verdicts. engine A: BFS over run/advance/clear histories on 2 prompts, state = (original replies, "
+             "cache entries+age)",
         exhaustive=bool(res["fixpoint"]),
         fixpoint=res["fixpoint"],
         depth_completed=res["depth_completed"],
         gate_logics=len(LOGICS),
         verdict_alphabet=[repr(v) for v in VERDICTS],
+        option_tuples=len(cfgs),
         prompts=len(pis),
         table_cells=len(LOGICS) * len(VERDICTS) ** 2,
+        family_cells={"table": fam_d["cells"], "shapes": fam_s["cells"], "identity_pairs": fam_i["pairs"],
+                      "history": fam_h["cells"]},
+        identity_variants=[len(variants(b)) for b in IDENT_BASES],
+        history_prefixes=len(hist_prefixes(quick)),
         passing_cells=tot["passes"],
         cache_hits_checked=tot["hits"],
+        expired_entries_reevaluated=tot["expired_reevaluated"],
+        breaker_refusals_seen=tot["refused"],
         real_agent_executions=real_exec,
     )
     if not res["fixpoint"]:
         ctx.coverage["caps_hit"] = f"engine A depth {depth} completed, {res['frontier_left']} frontier states left"
+    if quick:
+        ctx.coverage["quick_tier_reduction"] = ("non-base option tuples run on prompt #0 only (thorough: every prompt); "
+                                                "history prefixes of length 1 and threshold+2 only")
     ctx.assumptions += [
-        "stub agents return ActionProtein(verdict, text, 0.75); only action_type is assumed to drive the gate "
-        "(checked: every verdict pair witnessed on the built-in agents gives the same reply with stubs)",
+        "stub agents return ActionProtein(verdict, payload, confidence); only action_type is assumed to drive the gate "
+        "(checked: every verdict pair witnessed on the built-in agents gives the same reply with stubs; 9x9 answer "
+        "shapes are crossed with the base table)",
         "64-bit truncated-md5 cache-key collisions are not explorable",
         "MAJORITY over two agents is read as 'both permit'",
+        "a blocked, token-less reply given without consulting an agent while the circuit breaker is enabled is a "
+        "breaker refusal (C08's subject), not a cached reply",
     ]
 
 
@@ -420,11 +807,21 @@ def replay(ctx, case):
     if kind == "cell":
         pi = case["pi"]
         prompt = SURROGATE_PROMPT if pi == -1 else PROMPTS[pi]
-        return run_cell(case["logic"], case["cache"], prompt, case["ex"], case["as"])[0]
+        return run_cell(case["logic"], tuple(case["cfg"]), prompt, case["ex"], case["as"])[0]
+    if kind == "shape":
+        return run_cell(case["logic"], tuple(case["cfg"]), PROMPTS[0], case["ex"], case["as"], tuple(case["shapes"]))[0]
+    if kind == "ident":
+        base = IDENT_BASES[case["base"]]
+        var = dict(variants(base))[case["variant"]]
+        a, b = (base, var) if case["order"] == 0 else (var, base)
+        return run_ident(case["logic"], tuple(case["cfg"]), a, b)[0]
+    if kind == "hist":
+        return run_hist(case["logic"], tuple(case["cfg"]), tuple(case["pre"]), case["tail"], case["tgt"],
+                        case["ex"], case["as"])[0]
     if kind == "real":
         return run_real(list(case["scenario"]))[0]
     if kind == "hashfn":
-        out = d_worker([("AND", False, pi) for pi in range(len(PROMPTS))])
+        out = d_worker([("AND", BASE_CFGS[1], pi) for pi in range(len(PROMPTS))])
         seen = {}
         v = []
         for pi, h in sorted(out["hashes"]):
